@@ -63,7 +63,11 @@ func c20Spec() *core.Spec {
 		extra = []string{"a", "b"}
 	}
 	for _, name := range extra {
-		switch verif.Choose(name+".kind", 5) {
+		kinds := 5
+		if name == "b" {
+			kinds = 2 // (a second node from all five templates did not finish in 10 minutes: absent or terminal)
+		}
+		switch verif.Choose(name+".kind", kinds) {
 		case 0: // absent
 		case 1:
 			s.Nodes[name] = &core.Node{}
